@@ -474,6 +474,27 @@ func VerifDecodeClaim(msgType uint8, body []byte) (VerifClaim, bool) {
 	return c, true
 }
 
+// VerifHandleQueued runs, synchronously and under recover, what packetHandler runs for one message
+// taken from the handoff queue (body = the message without its type byte).
+func VerifHandleQueued(m *Memberlist, msgType uint8, body []byte, from net.Addr) (panicked bool) {
+	defer func() {
+		if r := recover(); r != nil {
+			panicked = true
+		}
+	}()
+	switch messageType(msgType) {
+	case suspectMsg:
+		m.handleSuspect(body, from)
+	case aliveMsg:
+		m.handleAlive(body, from)
+	case deadMsg:
+		m.handleDead(body, from)
+	case userMsg:
+		m.handleUser(body, from)
+	}
+	return false
+}
+
 // VerifEncodeUserMsgHeader encodes a userMsgHeader with an arbitrary declared length.
 func VerifEncodeUserMsgHeader(n int) []byte {
 	buf, _ := encode(userMsg, &userMsgHeader{UserMsgLen: n}, false)
